@@ -620,6 +620,13 @@ func (a *auth) powerLevelRules(ev *Ev) (bool, string) {
 			return false, "4:pl-user-entry-of-peer-removed"
 		}
 	}
+	// nor may an entry be added with a level above the sender's, also where users_default gives that user as much
+	// today (ninth audit round: the entry outlives the default)
+	for u, l := range np.Users {
+		if _, had := old.Users[u]; !had && sl < l {
+			return false, "4:pl-user-entry-added-above-sender"
+		}
+	}
 	useen := map[string]bool{}
 	for _, m := range []map[string]int64{np.Users, old.Users} {
 		for u := range m {
